@@ -8,22 +8,36 @@ export VERIF_ROOT="$(pwd)"
 . ./env.sh
 mkdir -p bin evidence replays
 
+# VERIF_ONLY=1: development mode, link only the property being run (tags only,only_cNN) into
+# bin/only/<id>/ so that a broken sibling package cannot break this build.
+BINDIR=bin
+TAGS=verif
+if [ -n "${VERIF_ONLY:-}" ] && [[ "${1:-}" == C* ]]; then
+  lc=$(echo "$1" | tr 'A-Z' 'a-z')
+  BINDIR=bin/only/$1
+  TAGS=verif,only,only_$lc
+  mkdir -p "$BINDIR"
+  export VERIF_BIN_DIR="$VERIF_ROOT/$BINDIR"
+fi
+
 build_variant() { # $1 = variant
-  local out=bin/verifctl flags=(-tags verif)
+  local out=$BINDIR/verifctl flags=(-tags $TAGS)
   case "$1" in
     default) ;;
-    race)   out=bin/verifctl-race;   flags=(-race -tags verif) ;;
-    slice)  out=bin/verifctl-slice;  flags=(-tags verif,slicelabels) ;;
-    dedupe) out=bin/verifctl-dedupe; flags=(-tags verif,dedupelabels) ;;
-    asan)   out=bin/verifctl-asan;   flags=(-asan -tags verif) ;;
+    race)   out=$BINDIR/verifctl-race;   flags=(-race -tags $TAGS) ;;
+    slice)  out=$BINDIR/verifctl-slice;  flags=(-tags $TAGS,slicelabels) ;;
+    dedupe) out=$BINDIR/verifctl-dedupe; flags=(-tags $TAGS,dedupelabels) ;;
+    asan)   out=$BINDIR/verifctl-asan;   flags=(-asan -tags $TAGS) ;;
     promtool)
       ( cd /repo && GOFLAGS= GOWORK=off flock "$VERIF_ROOT/.build.lock" go build -mod=mod -o "$VERIF_ROOT/bin/promtool" ./cmd/promtool ) >bin/build-promtool.log 2>&1 \
         || { echo "BUILD-FAILED variant=promtool (see bin/build-promtool.log)"; tail -20 bin/build-promtool.log; return 1; }
       return 0 ;;
     *) echo "unknown variant $1"; return 1 ;;
   esac
-  ( cd harness && flock "$VERIF_ROOT/.build.lock" go build "${flags[@]}" -o "../$out" ./cmd/verifctl ) >"bin/build-$1.log" 2>&1 \
-    || { echo "BUILD-FAILED variant=$1 (see bin/build-$1.log)"; tail -30 "bin/build-$1.log"; return 1; }
+  local lock="$VERIF_ROOT/.build.lock"
+  [ "$BINDIR" != bin ] && lock="$VERIF_ROOT/$BINDIR/.build.lock"
+  ( cd harness && flock "$lock" go build "${flags[@]}" -o "../$out" ./cmd/verifctl ) >"$BINDIR/build-$1.log" 2>&1 \
+    || { echo "BUILD-FAILED variant=$1 (see $BINDIR/build-$1.log)"; tail -30 "$BINDIR/build-$1.log"; return 1; }
 }
 
 case "${1:-}" in
@@ -42,7 +56,7 @@ case "${1:-}" in
   C*)
     id=$1; tier=${2:-${VERIF_TIER:-quick}}
     build_variant default || exit 2
-    for v in $(bin/verifctl variants "$id"); do build_variant "$v" || exit 2; done
-    exec bin/verifctl run "$id" "$tier" ;;
+    for v in $($BINDIR/verifctl variants "$id"); do build_variant "$v" || exit 2; done
+    exec $BINDIR/verifctl run "$id" "$tier" ;;
   *) echo "usage: $0 <Cxx> <quick|thorough> | replay <path> | all <tier>"; exit 2 ;;
 esac
